@@ -147,6 +147,31 @@ def run(ctx, case):
     ec.run_exec(ctx, case, [ec.oracle_c04])
 
 
+def gen_streams(ctx):
+    """wire requests sent from child asyncio tasks: the REAL composite runner with `stream` items (half of the cases) or the
+    simulated runner spawning tasks itself; 1-3 concurrent streams per group, first send / last response / everything inside streams"""
+    rng = ctx.rng
+    for _ in range(ctx.budget):
+        exact = rng.random() < 0.7
+        composite = rng.random() < 0.5
+        case = ec.gen_case(rng, exact, "timing")
+        for q in case["reqs"]:
+            if rng.random() < 0.2 and q["out"]["k"] not in ec.RAISING_KINDS:
+                q["out"] = rng.choice([{"k": "api", "status": rng.choice([400, 404, 429, 500])}, {"k": "transport", "status": None}, {"k": "timeout"}])
+            if composite:
+                q["rc"] = q["rp"] = None
+        if composite:
+            case["runner_completion"] = False
+            case["composite"] = True
+            tp = (case["task"].get("tput") or {}).get("tt")
+            if tp and tp["kind"] == "str" and " " in tp["s"]:
+                tp["s"] = tp["s"].split(" ")[0] + " ops/s"
+        if rng.random() < 0.85:
+            case["on_error"] = "continue"
+        ec.add_stream_programs(rng, case, exact, composite)
+        yield case
+
+
 # ------------------------------------------------------------------------------------------------
 # Sampler.add pre-empted by the worker thread's drain (Sampler.samples) at every possible point
 # ------------------------------------------------------------------------------------------------
@@ -294,6 +319,7 @@ STREAMS = [
     Stream("exec_scheduler_feedback", gen_feedback, run, quick=4000, thorough=150000, shards=16),
     Stream("exec_nested_contexts", gen_nested, run, quick=4000, thorough=200000, shards=16),
     Stream("exec_real_composite", gen_composite, run, quick=3000, thorough=150000, shards=16),
+    Stream("exec_concurrent_streams", gen_streams, run, quick=3000, thorough=120000, shards=16),
     Stream("sampler_preempt", gen_sampler, run_sampler, quick=320, thorough=8000, shards=16),
     Stream("exec_preempt_drain", gen_exec_preempt, run_exec_preempt, quick=64, thorough=1600, shards=16),
 ]
